@@ -1,6 +1,7 @@
 package main
 
 import (
+	"go/token"
 	"go/types"
 	"strings"
 
@@ -423,6 +424,14 @@ func (E *Engine) callWrites(fn *ssa.Function, cc *ssa.CallCommon, site ssa.Instr
 	case *ssa.MakeClosure:
 		E.fnWrites(v.Fn.(*ssa.Function), cc.Args, v.Bindings, tenv, w)
 		return
+	case *ssa.UnOp:
+		if v.Op == token.MUL {
+			if fa, ok := v.X.(*ssa.FieldAddr); ok {
+				if name := fieldPath(fa); name != "" && E.P.pureMethods["callback:"+name] {
+					return
+				}
+			}
+		}
 	case *ssa.Phi:
 		// a function-typed variable assigned statically known functions in the branches of an if
 		ok := true
